@@ -13,6 +13,7 @@ PID = "C20"
 
 def make_cases(tier, seed):
     cases = gen_sel.gen_isolation(seed) + gen_sel.gen_invalid(seed)
+    cases += gen_sel.gen_reconnect(seed, 60 if tier == "quick" else 1500)
     cases += gen_sel.gen_random(seed, 8000 if tier == "quick" else 60000)
     return cases
 
@@ -24,6 +25,15 @@ def post(ctx, d):
     n = 40 if ctx.tier == "quick" else 400
     failing, c1 = ttllib.race_sample(ctx, d, PID, gen_sel.gen_race(ctx.seed, n), "handle")
     cov.update(c1)
+    # connection lifecycle on the real scheduler: one OS thread and all of them, then over TCP
+    for gmp in (1, None):
+        if not failing:
+            failing, cx = ttllib.realclock_sample(ctx, d, PID, gen_sel.gen_reconnect(ctx.seed + 11, 25 if ctx.tier == "quick" else 300, "c20rcr"),
+                                                  "handle", gmp, tag="rc%s" % (gmp or "all"))
+            cov.update(cx)
+    if not failing:
+        failing, cx = ttllib.tcp_sample(ctx, d, PID, gen_sel.gen_reconnect(ctx.seed + 13, 6 if ctx.tier == "quick" else 60, "c20rctcp"))
+        cov.update({"reconnect_" + k: v for k, v in cx.items()})
     if not failing and ctx.tier == "thorough":
         failing, c2 = ttllib.race_sample(ctx, d, PID, gen_sel.gen_race(ctx.seed + 7, 60), "tcp")
         cov.update(c2)
@@ -56,7 +66,10 @@ def run(ctx):
              "(valid/invalid/borderline) with string/list/key commands and sleeps, dumps of all databases; thorough: (d) the same over "
              "real TCP connections against server.Start; (e) concurrency: N = 8-16 connections through Manager.Handle, released by a barrier, "
              "first-SELECT the same never-used index at the same instant on a fresh server (default ShardNum 1024), write one key each, then "
-             "every connection and a late one read every key (quick: 40 servers, 2/3/16 databases, every index > 0; thorough: 400 + 60 over TCP)",
+             "every connection and a late one read every key (quick: 40 servers, 2/3/16 databases, every index > 0; thorough: 400 + 60 over TCP); "
+             "(f) connection lifecycle: 12-30 rounds per case of a connection that SELECTs n != 0, writes a marker and ends (CLOSE, Handle has "
+             "returned), followed by new connections (fresh ids and ids of closed connections, sequential and 2-5 concurrent) that never SELECT "
+             "and read whoami / write at once -- through Manager.Handle under faketime, on the real scheduler with GOMAXPROCS 1 and all, and over TCP",
         extra_tb=["connections: mode handle drives server.Manager.Handle over net.Pipe (per-connection state is whatever Handle "
                   "keeps); the accept loop of server.Start is exercised only by the TCP sample (thorough)"],
         extra_cov=dict(db_counts=gen_sel.DBCOUNTS, invalid_args=len(gen_sel.INVALID_ARGS), borderline_args=len(gen_sel.BORDERLINE_ARGS),
